@@ -208,7 +208,7 @@ class P:
             self.expect(")")
             return xs[0] if len(xs) == 1 else ("ptuple", xs)
         if t[0] == "num": self.i += 1; return ("plit", self.numlit(t[1]))
-        if t[0] == "str": self.i += 1; return ("plit", lean_str(t[1]))
+        if t[0] == "str": self.i += 1; return ("plit", lean_chars(t[1]))
         if t[0] == "char": self.i += 1; return ("plit", lean_char(t[1]))
         if t[0] == "id" and t[1] in ("true", "false"): self.i += 1; return ("plit", t[1])
         if self.at("-") and self.peek(1)[0] == "num": self.fail("negative literal pattern")
@@ -350,6 +350,13 @@ class P:
             if self.at("const"):
                 self.i += 1; name = self.ident(); self.expect(":"); ty = self.ty(); self.expect("="); init = self.expr(); self.expect(";")
                 stmts.append(("let", ("bind", name), False, ty, init, None)); continue
+            if any(self.at(k) for k in ("if", "match", "for", "while", "loop", "{")) :
+                # a block-like expression at statement start ends at its closing brace (Rust's rule)
+                e = self.primary(False)
+                if self.at(".") or self.at("?"): self.fail("postfix operator after a block-like statement")
+                if self.at("}") and e[0] in ("if", "iflet", "match", "block"): tail = e; break
+                self.eat(";")
+                stmts.append(("expr", e)); continue
             e = self.expr()
             if self.eat(";"):
                 stmts.append(("expr", e)); continue
@@ -376,6 +383,10 @@ class P:
             if len(xs) == 1 and not trailing: return ("paren", xs[0])
             return ("tuple", xs)
         if self.at("{"): return self.block()
+        if self.at("async") and (self.at("{", 1) or (self.at("move", 1) and self.at("{", 2))):
+            self.i += 1; self.eat("move"); return ("asyncblock", self.block())
+        if self.at("unsafe") and self.at("{", 1):
+            self.i += 1; return self.block()
         if self.at("["):
             self.i += 1; xs = []
             while not self.at("]"):
@@ -394,7 +405,7 @@ class P:
                 p = self.pat(); guard = None
                 if self.eat("if"): guard = self.expr()
                 self.expect("=>")
-                body = self.expr()
+                body = self.block() if self.at("{") else self.expr()
                 if not self.eat(","):
                     if not self.at("}") and body[0] != "block": self.fail("expected `,` after match arm")
                 arms.append((p, guard, body))
@@ -641,10 +652,13 @@ def lname(n):
     return n + "_" if n in LEAN_RESERVED else n
 def lean_str(s):
     return '"' + s.replace("\\", "\\\\").replace('"', '\\"').replace("\n", "\\n").replace("\t", "\\t").replace("\r", "\\r").replace("\0", "\\x00") + '"'
+def lean_chars(s):
+    """a Rust string literal as an explicit `List Char` (reduces in the kernel, unlike `String` literals)"""
+    return "[" + ", ".join(lean_char(c) for c in s) + "]"
 def lean_char(c):
     return "'" + {"'": "\\'", "\\": "\\\\", "\n": "\\n", "\t": "\\t", "\r": "\\r", "\0": "\\x00"}.get(c, c) + "'"
 
-ERASED_METHODS = {"clone","as_ref","as_mut","iter","into_iter","iter_mut","cloned","copied","to_path_buf","as_str","as_path","to_owned",
+ERASED_METHODS = {"clone","as_ref","as_mut","iter","into_iter","iter_mut","cloned","copied","to_path_buf","as_path","to_owned",
                   "into","borrow","as_slice","to_vec","as_bytes_ref","by_ref","as_deref","unwrap_infallible"}
 INT_TYPES = {"u8","u16","u32","u64","u128","usize","i8","i16","i32","i64","i128","isize"}
 FIXED = {"u8":"UInt8","u16":"UInt16","u32":"UInt32","u64":"UInt64","usize":"UInt64"}
@@ -673,7 +687,7 @@ class Emit:
             if name in FIXED: return FIXED[name]
             raise Unsupported(f"integer type {name} in fixed mode")
         if name == "bool": return "Bool"
-        if name in ("str", "String"): return "String"
+        if name in ("str", "String"): return "Rs.Str"
         if name == "char": return "Char"
         if name in ("Path", "PathBuf", "OsStr", "OsString"): return "Rs.Path"
         if name == "SystemTime": return "Rs.SystemTime"
@@ -686,7 +700,9 @@ class Emit:
             return f"(Except {err} {self.ty(args[0])})"
         if name == "Self": return self.cur_owner
         if name in self.enums or name in self.structs: return name
-        if name in ("f32", "f64"): raise Unsupported("floating point type")
+        if name in ("f32", "f64"):
+            if self.unit.get("floats") == "rat": return "Rat"
+            raise Unsupported("floating point type (unit has no floats=\"rat\")")
         return "Rs.Opaque"
     def is_result(self, t): return t is not None and t[0] == "app" and t[1] == "Result"
 
@@ -798,6 +814,9 @@ class Emit:
     # ---- expressions (as plain terms; may contain `(← …)` when inside a do block)
     def num(self, v):
         _, lit, suf = v
+        if "." in lit and self.unit.get("floats") == "rat" and suf in (None, "f64", "f32"):
+            a, b = lit.split(".")
+            return f"(({a}{b} : Rat) / {10 ** len(b)})" if int(b or 0) else f"({a} : Rat)"
         if "." in lit or "e" in lit.lower() and not lit.startswith("0x"): raise Unsupported("floating point literal")
         if suf:
             if suf in ("f32", "f64"): raise Unsupported("floating point literal")
@@ -807,7 +826,7 @@ class Emit:
     def ex(self, e):
         k = e[0]
         if k == "num": return self.num(e)
-        if k == "str": return lean_str(e[1])
+        if k == "str": return lean_chars(e[1])
         if k == "char": return lean_char(e[1])
         if k == "byte": return f"({ord(e[1][-1]) if not e[1].startswith(chr(92)) else ord(eval(repr(e[1]).replace(chr(92)*2, chr(92))))} : UInt8)"
         if k == "paren": return "(" + self.ex(e[1]) + ")"
@@ -902,10 +921,14 @@ class Emit:
             if path == ["Some"]: return f"(some {a[0]})"
             if path == ["Ok"]: return f"(Except.ok {a[0]})"
             if path == ["Err"]: return f"(Except.error {a[0]})"
+            if path in (["Vec", "new"], ["Vec", "with_capacity"]): return "[]"
+            if path == ["String", "new"]: return "[]"
+            if path in (["PathBuf", "from"], ["String", "from"]): return a[0]
             lf = self.fn_ref(path)
             if lf:
                 ln, it = lf
                 pre = ["ext"] if ln in self.fns_using_ext else []
+                if pre: self.cur_uses_ext = True
                 if it["self"]: raise Unsupported(f"UFCS call of method {ln}")
                 return "(" + " ".join([ln] + pre + a) + ")" if (pre or a) else ln
             name = "_".join(path)
@@ -922,11 +945,14 @@ class Emit:
         recv, m, args = e[1], e[2], e[3]
         if m in ERASED_METHODS and not args: return self.ex(recv)
         # method of a type translated in this unit (non-mutating)
-        for key, (ln, it) in self.local_fns.items():
-            if it["name"] == m and it["self"] in ("ref", "own") and it["owner"] and len(it["params"]) == len(args) \
-               and (recv == ("path", ["self"]) and it["owner"] == self.cur_owner or self.unit.get("methods", {}).get(m) == it["owner"]):
-                pre = ["ext"] if ln in self.fns_using_ext else []
-                return "(" + " ".join([ln] + pre + [self.atom(recv)] + [self.atom(x) for x in args]) + ")"
+        for exact in (True, False):
+            for key, (ln, it) in self.local_fns.items():
+                if it["name"] == m and it["self"] in ("ref", "own") and it["owner"] and len(it["params"]) == len(args) \
+                   and ((recv == ("path", ["self"]) and it["owner"] == self.cur_owner) if exact
+                        else (recv != ("path", ["self"]) and self.unit.get("methods", {}).get(m) == it["owner"])):
+                    pre = ["ext"] if ln in self.fns_using_ext else []
+                    if pre: self.cur_uses_ext = True
+                    return "(" + " ".join([ln] + pre + [self.atom(recv)] + [self.atom(x) for x in args]) + ")"
         if m == "map_or" and len(args) == 2 and args[1][0] == "closure" and len(args[1][1]) == 1:
             p = self.pat(args[1][1][0])
             return f"(match {self.ex(recv)} with | some {p} => {self.ex(args[1][2])} | none => {self.ex(args[0])})"
@@ -980,10 +1006,10 @@ class Emit:
         for s in stmts: L += self.stmt(s, ind)
         if tail is not None:
             L += self.tail(tail, ind, mode)
-        elif mode == "val":
+        elif mode == "val" and not (stmts and self.diverges(stmts[-1])):
             L.append(ind + "pure ()")
-        elif mode == "ret" and (not stmts or not self.diverges(stmts[-1])):
-            L.append(ind + ("return self" if self.ret_self_only else "pure ()") if self.cur_ret_unit else ind + "pure ()")
+        elif mode == "ret" and not (stmts and self.diverges(stmts[-1])):
+            L.append(ind + ("return self" if self.cur_self == "mut" else "pure ()"))
         if not L: L.append(ind + "pure ()")
         return L
     def diverges(self, s):
@@ -1007,12 +1033,16 @@ class Emit:
                 v = "()" if inner == ("tuple", []) else self.ex(inner)
             elif e[0] == "call" and e[1] == ("path", ["Err"]):
                 return "throw " + self.atom(e[2][0])
+            elif not early and self.cur_self != "mut":
+                return self.ex(e)
             else:
                 v = f"(← {self.ex(e)})"
         else:
             v = self.ex(e)
         if self.cur_self == "mut":
             v = "self" if self.cur_ret_unit else f"({v}, self)"
+        if getattr(self, "mut_params", None):
+            v = "(" + ", ".join([v] + self.mut_params) + ")"
         return "return " + v
     def branching(self, e, ind, mode):
         k = e[0]; L = []
@@ -1102,6 +1132,7 @@ class Emit:
                 for key, (ln, it) in self.local_fns.items():
                     if it["name"] == m and it["self"] == "mut" and len(it["params"]) == len(args):
                         pre = ["ext"] if ln in self.fns_using_ext else []
+                        if pre: self.cur_uses_ext = True
                         c = " ".join([ln] + pre + [x] + [self.atom(a) for a in args])
                         if it["ret"] is None: return [ind + f"{x} := {c}"]
                         raise Unsupported("discarded result of a &mut self method")
@@ -1129,7 +1160,22 @@ class Emit:
         for f, t in it["fields"]: L.append(f"  {lname(f)} : {self.ty(t)}")
         L.append("  deriving DecidableEq, Repr, Inhabited")
         return "\n".join(L)
+    def closure_fn(self, key, ln, it):
+        """a closure with early returns and captured mutable variables, as a state-passing function"""
+        self.cur_fn = key; self.cur_owner = it["owner"] or ""; self.cur_result = False; self.cur_self = None
+        self.cur_ret_unit = False; self.ret_self_only = False; self.cur_uses_ext = False
+        self.mut_params = [n for n, t, *m in it["params"] if m]
+        try:
+            body = it["closure"][2]
+            if body[0] != "block": body = ("block", [], body)
+            L = [f"  let mut {n} := {n}" for n in self.mut_params]
+            L += self.seq(body, "  ", "ret")
+            rty = it["rty"] if not self.mut_params else "(" + " × ".join([it["rty"]] + [t for n, t, *m in it["params"] if m]) + ")"
+            return f"def {ln} " + " ".join(f"({n} : {t})" for n, t, *m in it["params"]) + f" : {rty} := Id.run do\n" + "\n".join(L)
+        finally:
+            self.mut_params = []
     def fn(self, key, ln, it):
+        self.mut_params = []
         self.cur_fn = key; self.cur_owner = it["owner"] or ""
         self.cur_result = self.is_result(it["ret"]); self.cur_self = it["self"]
         self.cur_ret_unit = it["ret"] is None or it["ret"] == ("tuple", [])
@@ -1164,6 +1210,41 @@ class Emit:
 class _NeedsExt(Exception):
     def __init__(self, ln): self.ln = ln
 
+def mentions(e, name):
+    if isinstance(e, tuple):
+        if e[:1] == ("path",) and e[1] == [name]: return True
+        return any(mentions(x, name) for x in e)
+    if isinstance(e, list): return any(mentions(x, name) for x in e)
+    return False
+
+def find_closure(e):
+    if isinstance(e, tuple):
+        if e[:1] == ("closure",): return e
+        for x in e:
+            c = find_closure(x)
+            if c is not None: return c
+    elif isinstance(e, list):
+        for x in e:
+            c = find_closure(x)
+            if c is not None: return c
+    return None
+
+def find_fragment(body, sel):
+    """`let:NAME` = the initialiser of the unique `let NAME = …;` in the function;
+       `if:NAME`  = the condition of the first `if` (source order) whose condition mentions NAME."""
+    kind, name = sel.split(":")
+    found = []
+    def walk(e):
+        if isinstance(e, tuple):
+            if kind == "let" and e[:1] == ("let",) and len(e) == 6 and e[1] == ("bind", name) and e[4] is not None: found.append(e[4])
+            if kind == "if" and e[:1] == ("if",) and len(e) == 4 and mentions(e[1], name): found.append(e[1])
+            for x in e: walk(x)
+        elif isinstance(e, list):
+            for x in e: walk(x)
+    walk(body)
+    if kind == "let": return found[0] if len(found) == 1 else None
+    return found[0] if found else None
+
 def translate_unit(unit, repo):
     """returns (lean text, [errors])"""
     files = {}
@@ -1175,6 +1256,32 @@ def translate_unit(unit, repo):
     em = Emit(unit, None)
     decls = []   # (kind, rust key, lean name, item)
     for ent in unit["items"]:
+        if ent[0] == "lean":
+            decls.append(("lean", "handwritten", "", {"text": ent[1], "name": ent[2] if len(ent) > 2 else None}, "(spec)"))
+            if len(ent) > 2 and ent[2]: em.structs[ent[2]] = {"name": ent[2], "fields": [(f, None) for f in ent[3]]}
+            continue
+        if ent[0] == "closure":
+            # ("closure", file, fn, selector, lean name, [(param, lean type[, "mut"])], lean result type): the first closure
+            # inside the selected expression, as a function of its parameters and of the captured variables listed
+            _, f, key, sel, ln, params, rty = ent
+            its = items_of(f)
+            if key not in its: raise Unsupported(f"{f}: item `{key}` not found")
+            if its[key]["kind"] == "error": raise Unsupported(f"{f}: `{key}`: {its[key]['msg']}")
+            e = find_fragment(its[key]["body"], sel)
+            c = find_closure(e) if e is not None else None
+            if c is None: raise Unsupported(f"{f}: `{key}`: no closure in fragment `{sel}`")
+            decls.append(("closure", key + " @ " + sel, ln, {"closure": c, "params": params, "rty": rty, "owner": its[key]["owner"]}, f))
+            continue
+        if ent[0] == "frag":
+            # ("frag", file, fn, selector, lean name, [(param, lean type)], lean result type)
+            _, f, key, sel, ln, params, rty = ent
+            its = items_of(f)
+            if key not in its: raise Unsupported(f"{f}: item `{key}` not found")
+            if its[key]["kind"] == "error": raise Unsupported(f"{f}: `{key}`: {its[key]['msg']}")
+            e = find_fragment(its[key]["body"], sel)
+            if e is None: raise Unsupported(f"{f}: `{key}`: fragment `{sel}` not found (or not unique)")
+            decls.append(("frag", key + " @ " + sel, ln, {"expr": e, "params": params, "rty": rty, "owner": its[key]["owner"]}, f))
+            continue
         f, key = ent[0], ent[1]
         ln = ent[2] if len(ent) > 2 else key.replace("::", ".")
         its = items_of(f)
@@ -1196,6 +1303,11 @@ def translate_unit(unit, repo):
                 if kind == "const": em.cur_owner = ""; out.append(src + "\n" + em.const(it))
                 elif kind == "enum": out.append(src + "\n" + em.enum(it))
                 elif kind == "struct": out.append(src + "\n" + em.struct(it))
+                elif kind == "lean": out.append("-- handwritten in tools/rs2lean_spec.py (trusted)\n" + it["text"])
+                elif kind == "closure": out.append(src + "\n" + em.closure_fn(key, ln, it))
+                elif kind == "frag":
+                    em.cur_owner = it["owner"] or ""; em.cur_fn = key; em.cur_result = False; em.cur_self = None
+                    out.append(src + "\n" + f"def {ln} " + " ".join(f"({n} : {t})" for n, t in it["params"]) + f" : {it['rty']} :=\n  " + em.ex(it["expr"]))
                 else: out.append(src + "\n" + em.fn(key, ln, it))
             break
         except _NeedsExt as e:
@@ -1210,8 +1322,7 @@ def render(unit, out, em):
     for o in unit.get("opens", []): L.append(f"open {o}")
     if unit.get("externs"):
         L.append("/-- functions called by the translated code that are outside the translated subset (parameters of the model) -/")
-        L.append("structure Ext where")
-        for n, t in unit["externs"].items(): L.append(f"  {lname(n)} : {t}")
+        L.append("structure Ext where\n" + "\n".join(f"  {lname(n)} : {t}" for n, t in unit["externs"].items()))
     if unit.get("preamble"): L.append(unit["preamble"])
     L += out
     L.append(f"end SyModel.Generated.{ns}")
